@@ -350,6 +350,38 @@ private theorem scanPaths_join : ∀ (ps : List Int), ps ≠ [] → ∀ (f : Nat
         simp only [List.map] at hs
         rw [hs, this]
 
+private theorem pathsGlued_comma (f : Nat) (r : Str) : pathsGlued f (',' :: r) = false := by
+  cases f with
+  | zero => rfl
+  | succ f => simp [pathsGlued, scanInt]
+
+/-- what `YYToken.__str__` prints for the paths (integers joined by single blanks) is never glued. -/
+private theorem pathsGlued_join : ∀ (ps : List Int), ps ≠ [] → ∀ (f : Nat) (r : Str),
+    pathsGlued f (joinSp (ps.map intStr) ++ ',' :: r) = false := by
+  intro ps
+  induction ps with
+  | nil => intro h; exact absurd rfl h
+  | cons p qs ih =>
+    intro _ f r
+    cases f with
+    | zero => rfl
+    | succ f =>
+      cases qs with
+      | nil =>
+        simp only [List.map, joinSp, pathsGlued, scanInt_comma, skipWs_nonws ',' r (by decide), pathsGlued_comma,
+          List.head?_cons, Bool.or_false]
+        have : (some ',' == some '-') = false := by decide
+        rw [this, Bool.false_and]
+      | cons q qs =>
+        have := ih (by simp) f r
+        simp only [List.map] at this
+        have hs := skipWs_paths (q :: qs) (by simp) (',' :: r)
+        simp only [List.map] at hs
+        simp only [List.map, joinSp_cons2, List.append_assoc, List.cons_append, pathsGlued, scanInt_sp,
+          skipWs_sp, hs, this, List.head?_cons, Bool.or_false]
+        have h2 : (some ' ' == some '-') = false := by decide
+        rw [h2, Bool.false_and]
+
 private theorem scanLnk_paths (ps : List Int) (hne : ps ≠ []) (r : Str) :
     scanLnk (joinSp (ps.map intStr) ++ r) = none := by
   have : ∃ c t, joinSp (ps.map intStr) ++ r = c :: t ∧ c ≠ '<' := by
@@ -415,14 +447,14 @@ private theorem matchTok_str (t : YTok) (rest : Str) (hp : t.paths ≠ []) (hl :
       simp only [YTok.str, Lnk.truthy, hpe, hcs, hnl, quoted, List.append_assoc, List.cons_append,
         List.nil_append, Bool.false_eq_true, if_false, matchTok, optBind, skipWs_intStr, scanInt_comma,
         scanComma_cs, skipWs_paths _ hp, scanLnk_paths _ hp,
-        scanPaths_join _ hp _ _ (len_le_append_succ _ _),
+        scanPaths_join _ hp _ _ (len_le_append_succ _ _), pathsGlued_join _ hp,
         skipWs_dq, skipWs_comma, skipWs_rp, scanString_quoted, scanString_comma, scanStrings_null,
         unescapeDQ_escapeDQ, if_true, Option.map]
     | some sf =>
       simp only [YTok.str, Lnk.truthy, hpe, hcs, hnl, quoted, List.append_assoc, List.cons_append,
         List.nil_append, Bool.false_eq_true, if_false, matchTok, optBind, skipWs_intStr, scanInt_comma,
         scanComma_cs, skipWs_paths _ hp, scanLnk_paths _ hp,
-        scanPaths_join _ hp _ _ (len_le_append_succ _ _),
+        scanPaths_join _ hp _ _ (len_le_append_succ _ _), pathsGlued_join _ hp,
         skipWs_dq, skipWs_rp, skipWs_sp, scanString_quoted,
         scanStrings_null, unescapeDQ_escapeDQ, if_true, Option.map]
   | charspan a b =>
@@ -437,14 +469,14 @@ private theorem matchTok_str (t : YTok) (rest : Str) (hp : t.paths ≠ []) (hl :
       simp only [YTok.str, htr, Lnk.str, hpe, hcs, hnl, quoted, List.append_assoc, List.cons_append,
         List.nil_append, Bool.false_eq_true, if_false, matchTok, optBind, skipWs_intStr, scanInt_comma,
         scanComma_cs, skipWs_paths _ hp, skipWs_lt, scanLnk_span,
-        scanPaths_join _ hp _ _ (len_le_append_succ _ _),
+        scanPaths_join _ hp _ _ (len_le_append_succ _ _), pathsGlued_join _ hp,
         skipWs_dq, skipWs_comma, skipWs_rp, scanString_quoted, scanString_comma, scanStrings_null,
         unescapeDQ_escapeDQ, if_true, Option.map]
     | some sf =>
       simp only [YTok.str, htr, Lnk.str, hpe, hcs, hnl, quoted, List.append_assoc, List.cons_append,
         List.nil_append, Bool.false_eq_true, if_false, matchTok, optBind, skipWs_intStr, scanInt_comma,
         scanComma_cs, skipWs_paths _ hp, skipWs_lt, scanLnk_span,
-        scanPaths_join _ hp _ _ (len_le_append_succ _ _),
+        scanPaths_join _ hp _ _ (len_le_append_succ _ _), pathsGlued_join _ hp,
         skipWs_dq, skipWs_rp, skipWs_sp, scanString_quoted,
         scanStrings_null, unescapeDQ_escapeDQ, if_true, Option.map]
   | _ => exact absurd hl (by simp [LnkOk])
